@@ -199,16 +199,11 @@ def check_state(r, k, masks, task):
 
 def run_task(task):
     if task.get("mode") == "mixed":
-        r = Result()
-        for k, masks in pairs.mixed_rate_triples(tuple(task["ks"]), 2, task["shard"],
-                                                 task["nshards"]):
-            r.states += 1
-            r.transitions += 1
-            r.sigs.add(lattice.signature(k, masks))
-            trains = [lattice.times(m) for m in masks]
-            evaluate(r, trains, lattice.edges(k), None, "auto", task["backend"],
-                     (k, pairs.nspikes(masks)))
-        return r
+        def mixed(r, k, masks, task):
+            trains, edges = pairs.trains_edges(k, masks)
+            evaluate(r, trains, edges, None, "auto", task["backend"], (k, pairs.nspikes(masks)))
+        return pairs.run_states(task, mixed, ID, states=pairs.mixed_rate_triples(
+            tuple(task["ks"]), 2, task["shard"], task["nshards"]))
     return pairs.run_states(task, check_state, ID)
 
 
